@@ -3,6 +3,7 @@ import copy, itertools
 from .common import *
 from ..absint import *
 from ..bmodel import *
+from .. import layout
 
 LEVEL = 'other'
 KIND_OF = {'rank': 'ShapeError', 'short': 'NotEnoughData', 'len': 'ShapeError', 'mono': 'Monotonic'}
@@ -13,8 +14,11 @@ def builder_value(lead, m):
     f = {'x': Obj('ndarr', name='x', role='axis'), 'data': data, 'strategy': Obj('strategy_builder')}
     if lead == 2:
         f['y'] = Obj('ndarr', name='y', role='axis')
-    adt = 'interp1d::Interp1DBuilder' if lead == 1 else 'interp2d::Interp2DBuilder'
-    return Enum(adt, adt.split('::')[-1], f)
+    adt = 'Interp1DBuilder' if lead == 1 else 'Interp2DBuilder'
+    from .. import layout
+    bv = layout.make(adt, **f)
+    bv.parts = f          # by role, whatever the fields are called
+    return bv
 
 
 def scenarios(lead, thorough):
@@ -45,7 +49,7 @@ def violated(lead, scn):
 
 
 def run_build(lib, lead, scn):
-    path = ('interp1d::Interp1DBuilder::build' if lead == 1 else 'interp2d::Interp2DBuilder::build')
+    path = ('Interp1DBuilder::build' if lead == 1 else 'Interp2DBuilder::build')
     b = lib.body(path)
     m = BModel(copy.deepcopy(scn))
     it = Interp(lib, m)
@@ -71,7 +75,7 @@ def run(chk):
     chk.assumptions += ["monotonic_prop classifies correctly and never returns Rising for NaN data (C12)"]
     n = 0
     for lead in (1, 2):
-        path = ('interp1d::Interp1DBuilder::build' if lead == 1 else 'interp2d::Interp2DBuilder::build')
+        path = ('Interp1DBuilder::build' if lead == 1 else 'Interp2DBuilder::build')
         b = anchor(chk, lib, path, 'R10.1')
         if b is None:
             continue
@@ -88,16 +92,17 @@ def run(chk):
                 chk.ob('R10.2', "%s: build() must not panic (%s)" % (key, out), False, out.where, key + '-panic')
                 continue
             if not viol:
-                ok_call = len(m.builds) == 1 and m.builds[0]['self'] is bv.fields['strategy'] and \
-                    m.builds[0]['args'][:lead] == [bv.fields[a] for a in (['x'] if lead == 1 else ['x', 'y'])] and m.builds[0]['args'][-1] is bv.fields['data']
+                ok_call = len(m.builds) == 1 and m.builds[0]['self'] is bv.parts['strategy'] and \
+                    m.builds[0]['args'][:lead] == [bv.parts[a] for a in (['x'] if lead == 1 else ['x', 'y'])] and m.builds[0]['args'][-1] is bv.parts['data']
                 chk.ob('R10.1', "%s: valid input reaches the strategy's build exactly once with the builder's own axes and data" % key,
                        ok_call, b['span'], key + '-build-called')
                 if scn['build'] == 'ok':
                     good = isinstance(out, Enum) and out.variant == 'Ok'
                     if good:
                         ip = deref_all(out.fields['0'])
-                        good = isinstance(ip, Enum) and ip.fields.get('data') is bv.fields['data'] and ip.fields.get('x') is bv.fields['x'] and \
-                            ip.fields.get('strategy') is m.finished and (lead == 1 or ip.fields.get('y') is bv.fields['y'])
+                        IA = 'Interp1D' if lead == 1 else 'Interp2D'
+                        good = isinstance(ip, Enum) and layout.part(ip, IA, 'data') is bv.parts['data'] and layout.part(ip, IA, 'x') is bv.parts['x'] and \
+                            layout.part(ip, IA, 'strategy') is m.finished and (lead == 1 or layout.part(ip, IA, 'y') is bv.parts['y'])
                     chk.ob('R10.1', "%s: returns Ok(interpolator made of the validated axes, data and the finished strategy)" % key, good, b['span'], key + '-ok')
                 else:
                     same = isinstance(out, Enum) and out.variant == 'Err' and deref_all(out.fields['0']) is m.err_token
@@ -114,8 +119,8 @@ def run(chk):
     chk.floor('R10.1', 'builder scenarios evaluated', n, 80 + 3 * 4 * 4 * 25 * 2)
     # R10.4 constructors / setters
     nc = 0
-    for lead, path in ((1, 'interp1d::Interp1DBuilder::new'), (2, 'interp2d::Interp2DBuilder::new'),
-                       (1, 'interp1d::Interp1D::builder'), (2, 'interp2d::Interp2D::builder')):
+    for lead, path in ((1, 'Interp1DBuilder::new'), (2, 'Interp2DBuilder::new'),
+                       (1, 'Interp1D::builder'), (2, 'Interp2D::builder')):
         b = anchor(chk, lib, path, 'R10.4')
         if b is None:
             continue
@@ -126,15 +131,15 @@ def run(chk):
             nc += 1
             try:
                 out = deref_all(it.call_def(b['def'], [data]))
-                ok = isinstance(out, Enum) and out.fields.get('data') is data
+                ok = isinstance(out, Enum) and layout.part(out, 'Interp1DBuilder' if lead == 1 else 'Interp2DBuilder', 'data') is data
                 chk.ob('R10.4', "%s with data of rank %s returns a builder holding the data (no panic)" % (path, nd), ok, b['span'], 'ctor-%s-%s' % (path, nd))
             except Diverge as d:
                 chk.ob('R10.4', "%s with data of rank %s must not panic: %s" % (path, nd, d), False, d.where, 'ctor-%s-%s' % (path, nd))
             except Unsupported as u:
                 chk.ob('R10.4', "%s is a plain constructor: %s" % (path, u), False, u.where, 'ctor-%s-%s' % (path, nd))
-    for lead, path, field in ((1, 'interp1d::Interp1DBuilder::x', 'x'), (1, 'interp1d::Interp1DBuilder::strategy', 'strategy'),
-                              (2, 'interp2d::Interp2DBuilder::x', 'x'), (2, 'interp2d::Interp2DBuilder::y', 'y'),
-                              (2, 'interp2d::Interp2DBuilder::strategy', 'strategy')):
+    for lead, path, field in ((1, 'Interp1DBuilder::x', 'x'), (1, 'Interp1DBuilder::strategy', 'strategy'),
+                              (2, 'Interp2DBuilder::x', 'x'), (2, 'Interp2DBuilder::y', 'y'),
+                              (2, 'Interp2DBuilder::strategy', 'strategy')):
         b = anchor(chk, lib, path, 'R10.4')
         if b is None:
             continue
@@ -145,7 +150,8 @@ def run(chk):
         nc += 1
         try:
             out = deref_all(it.call_def(b['def'], [bv, new]))
-            ok = isinstance(out, Enum) and out.fields.get(field) is new and all(out.fields.get(k) is v for k, v in bv.fields.items() if k != field)
+            BA = 'Interp1DBuilder' if lead == 1 else 'Interp2DBuilder'
+            ok = isinstance(out, Enum) and layout.part(out, BA, field) is new and all(layout.part(out, BA, k) is v for k, v in bv.parts.items() if k != field)
             chk.ob('R10.4', "setter %s replaces exactly its field and keeps the others" % path, ok, b['span'], 'setter-' + path)
         except (Diverge, Unsupported) as ex:
             chk.ob('R10.4', "setter %s is a plain field update: %s" % (path, ex), False, ex.where, 'setter-' + path)
